@@ -85,7 +85,7 @@ class C11Engine(Engine):
         if tier == 'smoke':
             return [('model', 6, 2)]
         if tier == 'thorough':
-            return [('model', 24000, 8)]
+            return [('model', 12000, 8)]
         return [('model', 700, 4)]
 
     # ------------------------------------------------------------------
@@ -155,7 +155,7 @@ class C11Engine(Engine):
     def _run(self, tape, res, scratch):
         ev = res['events']
         viol = res['violations']
-        cfg = specgen.Cfg(max_ns=3, max_types=6, tag_annotations=True)
+        cfg = specgen.Cfg(max_ns=3, max_types=6, tag_annotations=True, alias_bias=tape.chance(50))
         model = specgen.gen_model(tape, cfg)
         err_kind = None
         if tape.chance(10):
